@@ -89,6 +89,19 @@ class CEval:
         return self.m.outcome(list(self.jump))
 
     # ------------------------------------------------------------------ statements
+    def _push_scope(self):
+        if not hasattr(self, "scope_stack"):
+            self.scope_stack = []
+        self.scope_stack.append({})
+
+    def _pop_scope(self):
+        frame = self.scope_stack.pop()
+        for name, saved in frame.items():
+            if saved is None:
+                self.vars.pop(name, None)
+            else:
+                self.vars[name] = saved
+
     def stmt(self, s):
         k = s[0]
         self.steps += 1
@@ -99,8 +112,12 @@ class CEval:
         elif k == "empty" or k == "cancel" or k == "nop":
             pass
         elif k == "block":
-            for x in s[1]:
-                self.stmt(x)
+            self._push_scope()
+            try:
+                for x in s[1]:
+                    self.stmt(x)
+            finally:
+                self._pop_scope()
         elif k == "multidecl":
             for x in s[1]:
                 self.stmt(x)
@@ -113,6 +130,12 @@ class CEval:
             else:
                 # a re-declaration without initialiser keeps nothing in C; flat scope: value becomes indeterminate
                 v = None
+            if getattr(self, "scope_stack", None):
+                frame = self.scope_stack[-1]
+                if name not in frame:
+                    # C block scope: the declaration hides an outer variable of the same name until the block ends
+                    old = self.vars.get(name)
+                    frame[name] = list(old) if old is not None else None
             self.vars[name] = [ty, v, const]
         elif k == "if":
             c = self.truth(self.ev(s[1]))
@@ -123,6 +146,15 @@ class CEval:
                 self.stmt(s[3])
         elif k == "for":
             _, init, cond, step, body = s
+            if init is not None and init[0] == "decl":
+                # for (T i = ...; ...) opens a scope of its own
+                self._push_scope()
+                try:
+                    self.stmt(init)
+                    self.stmt(("for", None, cond, step, body))
+                finally:
+                    self._pop_scope()
+                return
             if init is not None:
                 self.stmt(init)
             n = 0
@@ -308,10 +340,14 @@ class CEval:
             v = self.m.load(addr, bits // 8)
             return ((sg, bits), wrap(v, (sg, bits)))
         if k == "stmtexpr":
-            for s in e[1]:
-                self.stmt(s)
-            self.hybrid_evals += 1
-            return self.ev(e[2])
+            self._push_scope()
+            try:
+                for s in e[1]:
+                    self.stmt(s)
+                self.hybrid_evals += 1
+                return self.ev(e[2])
+            finally:
+                self._pop_scope()
         if k == "sizeof":
             t = self.static_type(e[1])
             if t is None:
